@@ -1157,6 +1157,15 @@ AF = [
     ("method.fill", "(lambda d: (d.fill(Sq), d)[1])(P)", ["self", "value"], "merge"),
     ("method.searchsorted", "P.searchsorted(S)", ["self", "v"], "merge"),
     ("method.clip", "P.clip(Sq, None)", ["self", "min"], "merge"),
+    # both bounds given: the three-input `clip` ufunc path of __array_ufunc__ (dead while `unyt.array.clip` is the
+    # array function; seeded change C01-c revives it) — quantity, array and LIST-of-quantities bounds
+    ("method.clip", "P.clip(Sq, Sq * 3)", ["self", "min", "max"], "merge"),
+    ("method.clip", "P.clip(S, S * 3)", ["self", "min", "max"], "merge"),
+    ("method.clip", "P.clip([Sq, Sq, Sq], (Sq * 3, Sq * 3, Sq * 3))", ["self", "min", "max"], "merge"),
+    ("method.clip", "P.clip(list(S), list(S * 3))", ["self", "min", "max"], "merge"),
+    ("method.clip", "P[0].clip([Sq], [Sq * 3])", ["self", "min", "max"], "merge"),
+    ("clip", "np.clip(P, [Sq, Sq, Sq], [Sq * 3, Sq * 3, Sq * 3])", ["a", "a_min", "a_max"], "merge"),
+    ("clip", "np.clip(P, list(S), list(S * 3))", ["a", "a_min", "a_max"], "merge"),
     ("method.flat-assign", "(lambda d: (d.flat.__setitem__(0, Sq), d)[1])(P)", ["self", "value"], "merge"),
     ("unyt.uconcatenate", "unyt.uconcatenate([P, S])", ["arrs"], "merge"),
     ("unyt.uvstack", "unyt.uvstack([P, S])", ["arrs"], "merge"),
@@ -1195,7 +1204,7 @@ def run_array_functions(chk, E, tier, seed, handled):
                         Sq = "None"
                     if swap:
                         # the unit-carrying primary in the secondary's place: only for symmetric templates
-                        if "Sq" in tmpl or "P[0]" in tmpl or "lambda d" in tmpl or "np.sort(S)" in tmpl or kind in ("scalar", "zero_scalar"):
+                        if "Sq" in tmpl or "P[0]" in tmpl or "lambda d" in tmpl or "np.sort(S)" in tmpl or "list(S" in tmpl or ".clip(S" in tmpl or kind in ("scalar", "zero_scalar"):
                             continue
                         setup = f"P = {S}\nS = {P}\nSq = None\n"
                     else:
